@@ -288,6 +288,78 @@ def unsupported_labels(mol):
     return k
 
 
+def rd_configuration(rd):
+    """the labelled stereo elements of an RDKit molecule in the terms of `configuration` (atom INDICES), by own parity, from RDKit's
+    documented conventions only: a chiral tag is relative to the atom's neighbour order with an implicit hydrogen last (an explicit
+    hydrogen atom — any isotope, chython counts D/T as hydrogen — is moved to the end, one transposition per step); STEREOZ/E are
+    relative to the stereo atoms (a stereo atom that is not the smaller heavy substituent of its end inverts the label). Bonds with an
+    end of more than three neighbours are skipped like in `configuration` (recorded domain). Independent of both conversions."""
+    out = set()
+    for a in rd.GetAtoms():
+        t = a.GetChiralTag().name
+        if t not in ('CHI_TETRAHEDRAL_CW', 'CHI_TETRAHEDRAL_CCW'):
+            continue
+        nb = list(a.GetNeighbors())
+        heavy = [x.GetIdx() for x in nb if x.GetAtomicNum() != 1]
+        hs = [i for i, x in enumerate(nb) if x.GetAtomicNum() == 1]
+        if len(hs) > 1 or len(heavy) < 3:
+            out.add(('t?', a.GetIdx()))
+            continue
+        s = t.endswith('CCW')
+        if hs:
+            s ^= (len(nb) - 1 - hs[0]) % 2 == 1
+        out.add(('t', a.GetIdx(), s ^ odd(heavy, sorted(heavy))))
+    for b in rd.GetBonds():
+        st = b.GetStereo().name
+        if st not in ('STEREOE', 'STEREOZ'):
+            continue
+        sa = list(b.GetStereoAtoms())
+        ends = (b.GetBeginAtom(), b.GetEndAtom())
+        if len(sa) != 2 or ends[0].GetDegree() > 3 or ends[1].GetDegree() > 3:
+            continue
+        s = st == 'STEREOZ'
+        ok = True
+        for e, o, x in ((ends[0], ends[1], sa[0]), (ends[1], ends[0], sa[1])):
+            heavy = sorted(y.GetIdx() for y in e.GetNeighbors() if y.GetIdx() != o.GetIdx() and y.GetAtomicNum() != 1)
+            if not heavy:
+                ok = False
+                break
+            if x != heavy[0]:       # the other heavy substituent, or a hydrogen standing opposite the only heavy one
+                s = not s
+        if ok:
+            out.add(('c',) + tuple(sorted((ends[0].GetIdx(), ends[1].GetIdx()))) + (s,))
+        else:
+            out.add(('c?', b.GetIdx()))
+    return out
+
+
+def label_fields(ints):
+    """projection of an RMOL int list on what the tail of `to_rdkit_molecule` (SanitizeMol, AssignStereochemistry,
+    SetDoubleBondNeighborDirections) has to leave alone: per atom Z, explicit H, charge, isotope, map number, chiral tag; per bond
+    ends, stereo, stereo atoms; first conformer. (Bond types change by aromatisation, radical electrons / implicit H by sanitisation.)"""
+    n = ints[0]
+    out = [n]
+    for i in range(n):
+        z, eh, ih, ch, iso, rad, mp, tag = ints[1 + 8 * i: 9 + 8 * i]
+        out += [z, eh, ch, iso, mp, tag]
+    o = 1 + 8 * n
+    m = ints[o]
+    out.append(m)
+    for k in range(m):
+        b, e, t, st, s0, s1 = ints[o + 1 + 6 * k: o + 7 + 6 * k]
+        if b > e:
+            b, e, s0, s1 = e, b, s1, s0
+        out += [b, e, st, s0, s1]
+    out += ints[o + 1 + 6 * m:]
+    return out
+
+
+def canon_labels(text):
+    if not text.startswith('ok '):
+        return text
+    return 'ok ' + ' '.join(map(str, label_fields(list(map(int, text.split()[1:])))))
+
+
 def renumber_keep(rng, mol):
     """molgen.renumber (new numbers, shuffled atom and bond insertion order) with the labels re-expressed for the new
     neighbour orders so that the *configuration* is unchanged (labels are relative to dict order). Own parity, no table."""
@@ -427,6 +499,12 @@ def judge_A(mol, keep=True):
     c1, c2 = configuration(mol, pos), configuration(back)
     if c1 != c2:
         bad.append(('configuration', f'{sorted(c1 ^ c2)}'))
+    # the first half on its own: the RDKit molecule handed out must hold every supported label chython holds, in the same
+    # configuration (own parity on RDKit's documented conventions), whether or not RDKit's own perception would have found the
+    # stereo element — and nothing more
+    ci, cr = configuration(mol, idx), rd_configuration(rd)
+    if ci != cr:
+        bad.append(('configuration-to-rdkit', f'labels of the molecule vs labels of the RDKit molecule (by index): {sorted(ci ^ cr, key=str)}'))
     try:
         s1, s2 = str(norm(mol)), str(norm(back))
     except Exception as e:
@@ -484,6 +562,14 @@ def judge_B(rd, ref=None):
     a, b = rdcan(rd), rdcan(back)
     if a != b and not bad:
         bad.append(('rdkit-canonical', f'{a} -> {b}'))
+    # labels directly (RDKit's canonical SMILES above goes through a re-parse, which re-perceives stereo and would hide the loss
+    # of a label RDKit's own perception does not find): what the RDKit molecule holds on units chython supports has to arrive in
+    # the chython molecule (first half) and come back (whole trip), same configuration by own parity
+    cr, cm, cb = rd_configuration(rd), configuration(mol, {n: i for i, n in enumerate(mol._atoms)}), rd_configuration(back)
+    if cr != cm:
+        bad.append(('configuration-from-rdkit', f'labels of the RDKit molecule vs labels of the molecule (by index): {sorted(cr ^ cm, key=str)}'))
+    if cr != cb:
+        bad.append(('configuration', f'labels of the RDKit molecule before vs after (by index): {sorted(cr ^ cb, key=str)}'))
     for ra, (n, ca) in zip(src.GetAtoms(), mol.atoms()):
         if (getattr(ca, '_parsed_mapping', None) or 0) != ra.GetAtomMapNum():
             bad.append(('mapping', f'atom {ra.GetIdx()}: map {ra.GetAtomMapNum()} -> parsed_mapping {ca._parsed_mapping}'))
@@ -639,6 +725,12 @@ def judge_X(smi):
         mol = None
     if not readers_agree(mol, rd) or not rd_in_domain(rd) or unsupported_labels(mol):
         return None
+    if len(configuration(mol)) != len(rd_configuration(rd)):
+        # the two READERS already differ in which stereo elements they accept (RDKit's legacy perception knows no axial pair
+        # ring centre / exocyclic double bond, no spiro atom between two substituted rings): nothing to compare across toolkits;
+        # these molecules are judged by A, B and the carried-label variants
+        _state['x-readers-differ-stereo'] = _state.get('x-readers-differ-stereo', 0) + 1
+        return None
     bad = []
     try:
         a, b = rdcan(to_rdkit_molecule(mol)), rdcan(rd)
@@ -725,6 +817,46 @@ OTHER = [
 ]
 
 
+# ---- stereo elements chython accepts and RDKit's (legacy) perception does not --------------------------------------------
+# two ends on a ring axis: 1,3 on a four-ring, 1,4 on a six-ring, or across one spiro atom (which then is a centre itself).
+# An end is a ring centre or an exocyclic double bond. centre/centre on ONE ring is the ordinary ring cis/trans pair (RDKit finds
+# it: the control group); every other combination is found by chython only. RDKit carries such labels when they are SET on the
+# molecule (tags, stereo atoms + STEREOZ/E) — which is all the bridge may rely on.
+_AX_START = {'CH': 'C[C@H]1', 'Cq': 'C[C@]1(O)', '=C': 'C/C=C1/', '=N': 'O/N=C1/', '=Cq': 'CC/C(C)=C1/'}
+_AX_MID = {'CH': '[C@H](C)', 'Cq': '[C@@](C)(O)', '=C': '/C(=C\\C)', '=N': '/C(=N/O)', '=Cq': '/C(=C(/C)CC)'}
+_AX_SKEL = {'ring4': '{A}C{B}C1', 'ring6': '{A}CC{B}CC1', 'spiro44': '{A}C[C@]2(C1)C{B}C2', 'spiro66': '{A}CC[C@@]2(CC1)CC{B}CC2',
+            'spiro64': '{A}CC[C@]2(CC1)C{B}C2', 'dispiro': '{A}C[C@]2(C1)C[C@@]3(C2)C{B}C3'}
+AXIAL_EXTRA = ['C[C@H]1CCC(CC1)=C1CC[C@H](C)CC1', 'C[C@H]1CCC(CC1)=C1CC[C@@H](C)CC1', 'C[C@H]1CC(C1)=C1C[C@H](C)C1',
+               'C/C=C1/CC[C@H](C)CC1.[Na+].[Cl-]', 'C/C=C1/CC[C@H](CC1)[C@H](C)O', 'C/C=C1/CC[C@H](CC1)/C=C/C',
+               'C1C[C@]2(CC[C@H](C)CC2)CC[C@H]1C', 'C/C=C1/CC[C@@H](CC1)c1ccccc1', 'O[C@H]1CC[C@@]2(CC1)CC[C@H](N)CC2',
+               'C/C=C1/CN(C)C/C(=C\\C)C1']
+
+
+def slash_flip(rng, smi):
+    """the other configuration of one double bond: the LAST direction mark of the string is inverted."""
+    i = max(smi.rfind('/'), smi.rfind('\\'))
+    if i < 0:
+        return smi
+    return smi[:i] + ('\\' if smi[i] == '/' else '/') + smi[i + 1:]
+
+
+def axial_smiles(ctx):
+    """every end kind x end kind x skeleton (150) + extras, each in a random configuration; sampled in the quick tier."""
+    rng = ctx.rng
+    out = []
+    for sk, pat in _AX_SKEL.items():
+        for ka, a in _AX_START.items():
+            for kb, b in _AX_MID.items():
+                smi = flip_marks(rng, pat.format(A=a, B=b))
+                if rng.random() < 0.5:
+                    smi = slash_flip(rng, smi)
+                out.append((f'axial[{sk},{ka},{kb}]', smi))
+    if ctx.quick:
+        out = rng.sample(out, 40)
+    out += [(f'axial-extra[{i}]', x) for i, x in enumerate(AXIAL_EXTRA)]
+    return out
+
+
 def flip_marks(rng, smi):
     """another stereoisomer of the same constitution: toggle a random subset of @/@@ marks and of double-bond mark pairs."""
     out, i = [], 0
@@ -763,6 +895,7 @@ def source_smiles(ctx):
     out += [(f'dependent[{i}]', s) for i, s in enumerate(DEPENDENT)]
     out += [(f'mixed[{i}]', s) for i, s in enumerate(MIXED)]
     out += [(f'meso[{i}]', s) for i, s in enumerate(MESO)]
+    out += axial_smiles(ctx)
     out += donor_smiles(ctx)
     out += isotope_smiles(ctx)
     smis = molgen.corpus_smiles()
@@ -911,6 +1044,57 @@ def rd_variants(ctx, rd):
     return out
 
 
+def rd_carried(smi):
+    """RDKit molecule that CARRIES every label the SMILES spells, without RDKit's stereo perception having had a say: parsed
+    unsanitised (chiral tags as written), sanitised, double-bond labels set from the direction marks as stereo atoms + STEREOZ/E.
+    Built from the text by RDKit functions only (no chython code on the way)."""
+    from rdkit import Chem
+    from rdkit.Chem import BondStereo
+    p = Chem.SmilesParserParams()
+    p.removeHs = False
+    p.sanitize = False
+    rd = Chem.MolFromSmiles(smi, p)
+    if rd is None:
+        return None
+    try:
+        Chem.SanitizeMol(rd)
+        Chem.SetBondStereoFromDirections(rd)
+    except Exception:
+        return None
+    for b in rd.GetBonds():
+        st = b.GetStereo()
+        if st == BondStereo.STEREOCIS:
+            b.SetStereo(BondStereo.STEREOZ)
+        elif st == BondStereo.STEREOTRANS:
+            b.SetStereo(BondStereo.STEREOE)
+    return rd
+
+
+def rd_inputs(ctx, smi, mol, rd0):
+    """RDKit-side inputs for one SMILES: RDKit's own reading re-expressed (`rd_variants`), and — where RDKit's perception dropped
+    labels that chython's reader accepts — the molecule carrying all labels as spelled (`rd_carried`), as built and renumbered.
+    The carried molecule is used only when its labels are exactly those of chython's own reading of the same text (by index, own
+    parity on both sides), so that every label on it stands on a unit chython supports."""
+    from rdkit import Chem
+    out = rd_variants(ctx, rd0)
+    if mol is None or ('@' not in smi and '/' not in smi and '\\' not in smi):
+        return out
+    try:
+        want = configuration(mol, {n: i for i, n in enumerate(mol._atoms)})
+        if want == rd_configuration(rd0) or unsupported_labels(mol):
+            return out
+        rc = rd_carried(smi)
+        if rc is None or rc.GetNumAtoms() != len(mol._atoms) or rd_configuration(rc) != want:
+            ctx.dist('carried:not-comparable')
+            return out
+    except Exception:
+        return out
+    ctx.dist('carried:used')
+    perm = list(range(rc.GetNumAtoms()))
+    ctx.rng.shuffle(perm)
+    return out + [('carried', rc), ('carried-renumbered', Chem.RenumberAtoms(rc, perm))]
+
+
 def set_rd_coords(rng, rd):
     from rdkit.Chem import Conformer
     from rdkit import Chem
@@ -981,6 +1165,8 @@ def correspond(ctx):
     ctx.cov['programs'] = 5   # to_rdkit_molecule, from_rdkit_molecule, stereogenic_tetrahedrons, _stereo_cis_trans_centers, stereogenic_cis_trans
     s_env, s_from, s_rt, s_edge = (Stream(ctx, n) for n in ('env', 'from', 'model-round-trip', 'edge'))
     s_to = Stream(ctx, 'to', canon_rmol)
+    s_tof = Stream(ctx, 'to-final', canon_labels)   # the RETURNED RDKit molecule against the model: the tail of `to` (SanitizeMol,
+    #                                                AssignStereochemistry, SetDoubleBondNeighborDirections) must leave every transferred field alone
     rng = ctx.rng
     for tag, smi in source_smiles(ctx):
         mol = parse(smi)
@@ -1012,6 +1198,7 @@ def correspond(ctx):
                            {'variant': vtag.split(':', 1)[1] if ':' in vtag else '', 'seed': ctx.seed})
                 continue
             s_to.add(line('to', int(keep), cmol_ints(m)), 'ok ' + ' '.join(map(str, pre)), vtag, nt)
+            s_tof.add(line('to', int(keep), cmol_ints(m)), outcome(lambda: rmol_ints(rd)), vtag, nt)
             ctx.dist('A:atoms<=%d' % (10 * (1 + len(m._atoms) // 10)))
             ctx.dist('A:stereo-labels=%d' % min(4, len(configuration(m))))
             try:
@@ -1033,7 +1220,7 @@ def correspond(ctx):
         elif not rd_representable(rd0):
             ctx.dist('domain:rdkit-molecule-outside')
         else:
-            for vt, rd in rd_variants(ctx, rd0):
+            for vt, rd in rd_inputs(ctx, smi, mol, rd0):
                 rd = set_rd_coords(rng, rd)
                 if rng.random() < 0.5:
                     for a in rd.GetAtoms():
@@ -1065,9 +1252,9 @@ def correspond(ctx):
                 ctx.count(('X', smi))
                 ctx.dist('X:judged')
                 report(ctx, 'X', tag, smi, x)
-    exhaustive(ctx, s_env, s_to, s_from)
+    exhaustive(ctx, s_env, s_to, s_from, s_tof)
     edge_from(ctx, s_edge)
-    for s in (s_env, s_to, s_from, s_rt, s_edge):
+    for s in (s_env, s_to, s_tof, s_from, s_rt, s_edge):
         s.run()
     if _state.get('unsupported-dropped'):
         ctx.notes.append(f"{len(_state['unsupported-dropped'])} molecules lost only labels RDKit cannot carry (allene, cumulated or "
@@ -1208,7 +1395,7 @@ def dbond_spellings():
     return out
 
 
-def exhaustive(ctx, s_env, s_to, s_from):
+def exhaustive(ctx, s_env, s_to, s_from, s_tof=None):
     """the finite template domain through the real code (R) and the model (K). Complete in the thorough tier."""
     from rdkit import Chem
     from chython.utils.rdkit import to_rdkit_molecule
@@ -1230,6 +1417,8 @@ def exhaustive(ctx, s_env, s_to, s_from):
             report(ctx, 'T', tag, smi, [('raises', f'to_rdkit_molecule raised {type(e).__name__}: {str(e)[:100]}')], {'template': tag})
             continue
         s_to.add(line('to', 1, cmol_ints(m)), 'ok ' + ' '.join(map(str, pre)), tag)
+        if s_tof is not None:
+            s_tof.add(line('to', 1, cmol_ints(m)), outcome(lambda: rmol_ints(rd)), tag)
         ctx.count(('T', tag))
         bad = []
         if ref is None:
@@ -1444,7 +1633,7 @@ def search(ctx):
         rd0 = Chem.MolFromSmiles(smi, p)
         if rd0 is None or not rd_representable(rd0):
             continue
-        for vt, rd in rd_variants(ctx, rd0):
+        for vt, rd in rd_inputs(ctx, smi, mol, rd0):
             try:
                 kind, bad = judge_B_any(set_rd_coords(rng, rd))
             except Exception:
@@ -1490,7 +1679,7 @@ def probe(inp):
         p.removeHs = False
         rd0 = Chem.MolFromSmiles(smi, p)
         if rd0 is not None and rd_representable(rd0):
-            for vt, rd in rd_variants(C, rd0):
+            for vt, rd in rd_inputs(C, smi, mol, rd0):
                 try:
                     found += [(vt, w, d) for w, d in judge_B_any(set_rd_coords(C.rng, rd))[1]]
                 except Exception as e:
